@@ -20,9 +20,15 @@ BOUNDS = ('k<=2 (thorough 3) contenders, arrival a_i and hold h_i in [0,20] (0 =
 ASSUMPTIONS = ['contenders do not suppress CancelTask / GeneratorExit']
 
 
-def fam_lock(E, k, fault_kinds, nest=True, rerequest=False, real=False, pmax=2):
-    a = [E.num('a%d' % i, 0, 20, real=real) for i in range(k)]
-    h = [E.num('h%d' % i, 0, 20, real=real) for i in range(k)]
+def fam_lock(E, k, fault_kinds, nest=True, rerequest=False, real=False, pmax=2, queue=False):
+    if queue:
+        # a holder and k-1 waiters queueing up one after the other (concrete arrivals / holds);
+        # the fault instant and the victim stay symbolic
+        a = [E.const(i) for i in range(k)]
+        h = [E.const(10)] + [E.const(1)] * (k - 1)
+    else:
+        a = [E.num('a%d' % i, 0, 20, real=real) for i in range(k)]
+        h = [E.num('h%d' % i, 0, 20, real=real) for i in range(k)]
     depth = [(E.pick('depth%d' % i, 2) + 1) if nest else 1 for i in range(k)]
     again = E.flag('again') if rerequest else False
     victim = E.pick('victim', k) if len(fault_kinds) > 1 or fault_kinds[0] != Fault.NONE else 0
@@ -173,6 +179,12 @@ FAMILIES = [
            reach=['none', 'cancel', 'interrupt', 'close', 're-entered', 'fault-hits-waiter',
                   'fault-hits-holder'],
            bounds='2 contenders, nesting, re-request, all faults'),
+    Family('queue_of_four', fam_lock,
+           quick=dict(k=4, fault_kinds=[Fault.CANCEL, Fault.INTERRUPT, Fault.CLOSE], nest=False,
+                      queue=True, pmax=2),
+           reach=['cancel', 'interrupt', 'close', 'fault-hits-waiter'],
+           bounds='holder + 3 queued waiters (concrete arrivals 0..3), one of them removed at a '
+                  'symbolic instant (c,p)'),
     Family('three', fam_lock,
            quick=dict(k=3, fault_kinds=NOF, nest=False),
            thorough=dict(k=3, fault_kinds=ALLF, nest=False, pmax=2),
